@@ -423,12 +423,17 @@ def check_subcollections(ctx):
         okl = len(cps) == 1 and u(cps[0].args[0]).endswith(f'[{k}]') and u(cps[0].args[1]) == f'self._getitem_int({idx})'
     rep.add('X5', fia.site(loops[0] if loops else None), 'slot k receives the signature at the k-th requested index (order and repeats preserved)', okl, expected='for k, idx in enumerate(indices): copyto(out[k], self._getitem_int(idx))',
             found=[u(l)[:80] for l in loops], stmt='fill order')
+    fia_rets = [s for s in stmts_in(fia.node.body) if isinstance(s, ast.Return)]
+    out_name = u(next((s.targets[0] for s in fia.node.body if isinstance(s, ast.Assign) and un and s.value is un[0]), None)) if un else None
+    rep.account_returns('X5', fia, [r for r in fia_rets if u(r.value) == out_name and r is fia.node.body[-1]], 'index-array selection')
+    rep.account_returns('X4', fsl, [s for s in stmts_in(fsl.node.body) if isinstance(s, ast.Return) and (any(x in fast for x in ast.walk(s)) or u(s.value).startswith('super()._getitem_slice('))], 'slice selection')
     fl = m.func(f'{BASE}.SignatureList._getitem_int_array')
     rep.functions.add(fl.qualname)
     ipl = fl.params()[1]
     rets = [s for s in fl.node.body if isinstance(s, ast.Return)]
     v = rets[0].value if rets else None
     okv = isinstance(v, ast.Call) and u(v.func) == 'SignatureList' and u(get_arg(v, 1, 'kmerspec')) == 'self.kmerspec' and u(get_arg(v, 2, 'dtype')) == 'self.dtype'
+    rep.account_returns('X5', fl, rets[:1], 'list-backed selection')
     rep.add('X5', fl.site(rets[0] if rets else None), 'a list-backed selection keeps k-mer parameters and integer type', okv, expected='SignatureList([...], self.kmerspec, self.dtype)', found=u(v), stmt='list kmerspec/dtype')
     if isinstance(v, ast.Call) and v.args:
         lc = v.args[0]
